@@ -19,21 +19,10 @@ from sa.selftest import Edit, Variant
 from sa.sym import (ClassRef, Interp, PyCallable, Rec, closure_of, explore, method_of)
 from sa.poly import RF
 
-EXPLANATION = (
-    "Static rules over svg_path_iter.py / svg_meta.py / svg_types.py: (R-REGEX) the folded token regexes are compiled to "
-    "position automata, shown 1-unambiguous and greedy (so Python's match = longest prefix), L(_FLOAT_RE) is compared with the "
-    "transcribed SVG 1.1 number grammar by product construction, and the iterated-longest-prefix tokenizer model is compared with "
-    "maximal-munch tokenisation of the specification on every string over the number alphabet up to a length bound; (R-GUARD) every "
-    "yield of _parse_args is converter(slice of a successful anchored match) and a failed match raises ValueError, the remainder of a "
-    "partially consumed token is re-scanned; (R-TABLE) arities, arc argument typing, implicit moveto->lineto repeat, command alphabet; "
-    "(R-CASE) check_cmd/_explode_cmd/path_segment/ntos specialised per command letter by the symbolic evaluator; (R-EFFECT) only "
-    "ValueError is raised in the parse closure, no handler swallows; printer language (CPython repr) included in the parser language."
-)
-ASSUMPTIONS = [
-    "float()/int() accept every word of the SVG number grammar / [01] (CPython semantics, transcribed)",
-    "str(n) of a finite float or int is in the transcribed repr language PY_NUMBER_REPR_RE and float(str(x)) == x (CPython guarantee)",
-    "behaviour on non-str input is out of scope",
-]
+from sa.texts import T as _T
+
+EXPLANATION = _T["C10"]["explanation"] + " Not decided: " + _T["C10"]["not_decided"] + "."
+ASSUMPTIONS = _T["C10"]["assumptions"]
 
 P = "C10"
 
